@@ -59,6 +59,12 @@ func (p *Path) newThread(name string) *Thread {
 
 // pushFrame enters an SSA function.
 func (p *Path) pushFrame(th *Thread, fn *ssa.Function, args []Value, free []Value, retSlot int, onRet func(Value)) *Frame {
+	if p.maxDepth > 0 && len(th.frames) > p.maxDepth {
+		// the harness declared that the code under test never nests deeper: running past the bound is
+		// unbounded recursion, which natively ends in a fatal (unrecoverable) stack overflow
+		p.violationNow("panic", fmt.Sprintf("call depth exceeds %d: unbounded recursion (natively a fatal stack overflow, which no recover can catch)", p.maxDepth))
+		panic(pathEnd{endStop, "call depth bound exceeded"})
+	}
 	if len(th.frames) > 2000 {
 		panic(pathEnd{endBudget, "call depth exceeded"})
 	}
@@ -313,6 +319,26 @@ func (p *Path) exec(th *Thread, fr *Frame, in ssa.Instruction) {
 		p.execMakeSlice(th, fr, x)
 	case *ssa.MakeMap:
 		mt := x.Type().Underlying().(*types.Map)
+		// a size hint pre-allocates buckets for that many entries (8 entries of key+value per bucket, at
+		// least 16 bytes an entry counted here): a hint taken from untrusted input counts against the
+		// allocation cap just like a slice capacity; a negative hint is ignored by the runtime
+		if x.Reserve != nil && p.allocCap > 0 {
+			tc := p.tc()
+			ht := p.asTerm(p.get(fr, x.Reserve))
+			const perEntry = 16
+			if ht.IsConst() {
+				if n := sext64(ht.Val, ht.W); n > 0 && n*perEntry > p.allocCap {
+					p.violationNow("alloc", fmt.Sprintf("a map pre-sized for %d entries exceeds the allocation cap of %d bytes", n, p.allocCap))
+				}
+			} else {
+				h64 := ht
+				if ht.W < 64 {
+					h64 = p.toInt64(ht, x.Reserve.Type())
+				}
+				lim := tc.BV(uint64(p.allocCap/perEntry), 64)
+				p.check(tc.Cmp(OpBvSle, h64, lim), "alloc", fmt.Sprintf("a map pre-sized from attacker-controlled input exceeds the allocation cap of %d bytes", p.allocCap))
+			}
+		}
 		md := &MapData{idx: map[string]int{}, kt: mt.Key(), vt: mt.Elem()}
 		o := p.h.alloc(x.Type(), md, "makemap")
 		p.set(fr, x, MapV{id: o.id})
